@@ -90,6 +90,8 @@ def cases(tier, seed):
     for tname in HISTORY_TREES:
         for h in RB.histories(tier):
             yield {"k": "C", "tree": tname, "history": h}
+        for e1, e2 in itertools.product(RB.inplace_edits(), repeat=2):
+            yield {"k": "C", "tree": tname, "history": ["inplace", e1, e2]}
     yield from cases_(tier, seed)
 
 
@@ -182,6 +184,29 @@ def run_history(desc, seed):
     viol = {}
     nb = 0
     parent, groups = HISTORY_TREES[desc["tree"]]
+    if desc["history"][0] == "inplace":
+        # ONE tree object and ONE term-list object; the list is edited in place between the constructions
+        basis = V["sho"]
+        edits = RB.inplace_edits()
+        for algo in ("Hopcroft-Karp", "qr"):
+            # one history per algorithm: the same tree object and the same list object all along
+            ham = RB.ops_of(basis)
+            tree = TR.build_basis_tree(parent, groups, basis)
+            for step, ed in enumerate([None] + list(desc["history"][1:])):
+                if ed is not None:
+                    edits[ed](ham)
+                ref = RB.dense_of_ops(basis, ham)
+                try:
+                    got = np.asarray(TTNO(tree, ham, algo=algo).todense(list(basis)))
+                except Exception as e:
+                    sig = f"C02:history:inplace:exception:{type(e).__name__}"
+                    viol.setdefault(sig, {"sig": sig, "msg": f"tree {desc['tree']} history {desc['history']} step {step} ({algo}): {e!r}"})
+                    continue
+                nb += 1
+                if not close(got, ref, 1e-9):
+                    sig = f"C02:history:inplace:mismatch:{'first' if step == 0 else 'later'}-construction"
+                    viol.setdefault(sig, {"sig": sig, "msg": f"tree {desc['tree']}: same tree object, same term list edited in place ({desc['history'][1:step + 1]}): construction {step + 1} ({algo}) differs from the dense sum of the CURRENT list by rel {rel_err(got, ref):.2e}"})
+        return {"nontrivial": nb >= 2, "counters": {"history_constructions": nb}, "outcome": f"history:{'viol' if viol else 'ok'}", "viol": list(viol.values()), "sample": {"desc": desc}}
     for step, name in enumerate(desc["history"]):
         basis = V[name]
         ref = RB.dense_of(basis)
